@@ -46,8 +46,9 @@ Definition bd_chunks_data (ks : list bd_chunk) : bytes := concat (map bc_data ks
 Definition bd_lines_fit (hard : nat) (ks : list bd_chunk) (last : bytes) : bool :=
   forallb (fun k => (length (bc_line k) <=? hard)%nat) ks && (length last <=? hard)%nat.
 
-(* response side: data_probe_chunk_length is evaluated on the part of the size line that lies in the CURRENT
-   TCP chunk; it must not fire whatever the cut: every suffix of the line (without its LF) is shorter than 8 bytes
+(* HISTORICAL premise (finding K1, repaired): before the repair data_probe_chunk_length was evaluated on the part of the size
+   line that lies in the CURRENT TCP chunk only; the theorems needed this predicate, now they do not (kept for the regression
+   Example C06_chunked_res_ext_fixed and the c06prem suite); it must not fire whatever the cut: every suffix of the line (without its LF) is shorter than 8 bytes
    or has a hex digit as its first non-control byte *)
 Fixpoint bd_suffixes_ok (s : bytes) : bool :=
   match s with
